@@ -18,6 +18,7 @@ type Human implements Node { id: ID! name(upper: Boolean): String! friends: [Hum
 input TagIn { label: String weight: Int }
 input HumanIn { name: String tags: [TagIn!] }
 type Query { node(id: ID!): Node getHumans: [Human!]! me: Human findHumans(filter: [HumanIn!], grid: [[Int]], first: Int): [Human!]! maybe: [Human] nobody: [Human] }
+type Robot implements Node { id: ID! name: String! }
 type SavePayload { human: Human query: Query }
 type Mutation { saveHuman(name: String!): Human! saveBoth(name: String!): SavePayload }
 `
@@ -78,6 +79,7 @@ func vReadmeWorld(k int) *vWorld {
 	w.roots["Mutation.savePhone"] = vRef{"Human", "h1"}
 	w.ents["p1"] = vEnt{"__typename": "SavePayload", "id": "p1", "human": vRef{"Human", "h2"}, "query": vRootRef("Query")}
 	w.roots["Mutation.saveBoth"] = vRef{"SavePayload", "p1"}
+	w.ents["r1"] = vEnt{"__typename": "Robot", "id": "r1"}
 	return w
 }
 
@@ -180,6 +182,13 @@ func vReadmeOps() []vOp {
 		{q: `{ me { id: name phone } }`, known: "response-key-id-taken"},
 		{q: `{ me { t: __typename phone } }`},
 		{q: `{ getHumans { ...F friends { ...F } } } fragment F on Human { phone name }`},
+		// a node lookup with a fragment on one type, for an entity of that or of another type
+		{q: `query($id: ID!) { node(id: $id) { ...F } } fragment F on Robot { name }`, noNode: true, vars: func() map[string]interface{} {
+			return map[string]interface{}{"id": []string{"h1", "r1"}[verifChoice("var_id", 2)]}
+		}},
+		{q: `query($id: ID!) { node(id: $id) { ...F } } fragment F on Human { name phone }`, noNode: true, vars: func() map[string]interface{} {
+			return map[string]interface{}{"id": []string{"h1", "r1"}[verifChoice("var_id", 2)]}
+		}},
 		// more of the same family, reported by sub-agents of round 6
 		{q: `{ me { node: pets { owner { name } } } }`},
 		{q: `{ a: me { ...F } b: me { ...F } } fragment F on Human { best { phone } }`},
